@@ -85,8 +85,6 @@ class TagObj : public RefCountable {};
 static int g_ptrTargets[4];
 static uint32 g_variant = 0;        // alternates between the typed call and the equivalent generic AddData / PrependData / ReplaceData call
 static bool g_sawNonFlat = false;   // a tag or pointer was involved somewhere in the current case
-static uint64_t g_f37 = 0;          // times the directed form of known finding F37 reproduced
-static const char * kF37 = "F37: ReplaceFlat(false, name, index >= 1, buffer) on a one-item raw field returns B_NO_ERROR and overwrites item 0 (documented: B_DATA_NOT_FOUND, no side effects)";
 
 enum {MODE_ADD = 0, MODE_PREPEND, MODE_REPLACE};
 static MessageRef BuildScript(const mj::Value & sc);
@@ -137,19 +135,6 @@ static status_t PutItem(Message & m, const String & fn, uint32 tc, const mj::Val
             if (tc != B_RAW_TYPE) return B_BAD_ARGUMENT;
             ByteBufferRef b = GetByteBufferFromPool((uint32) raw.size(), (const uint8 *) raw.data());
             if (b() == NULL) return B_OUT_OF_MEMORY;
-            if ((mode == MODE_REPLACE)&&(okToAdd == false)&&(idx >= 1))
-            {
-               uint32 t2 = 0, n2 = 0;
-               if ((m.GetInfo(fn, &t2, &n2).IsOK())&&(t2 == tc)&&(n2 == 1))
-               {
-                  // Known finding F37, exactly this call: ReplaceFlat(false, name, index >= 1, buffer) on a one-item field must fail without side effects.
-                  // When it succeeds (item 0 overwritten) that is counted, the old item 0 is put back, and the run goes on as if it had failed.
-                  ByteBufferRef old; (void) m.FindFlat(fn, 0, old);
-                  const status_t r = m.ReplaceFlat(false, fn, idx, b);
-                  if (r.IsOK()) {g_f37++; if (old()) (void) m.ReplaceFlat(false, fn, 0, old); return B_DATA_NOT_FOUND;}
-                  return r;
-               }
-            }
             return TYPED3(AddFlat, PrependFlat, ReplaceFlat, b);
          }
          return GENERIC3(tc, raw.data(), (uint32) raw.size());
@@ -327,8 +312,7 @@ static int Replay(int argc, char ** argv)
    }
    mj::Value tr = mj::Value::Obj(); char key[16];
    for (int a=0; a<5; a++) for (int b=0; b<5; b++) if (trans[a][b]) {snprintf(key, sizeof(key), "%d>%d", a, b); tr.set(key, mj::Value::Int((int64_t) trans[a][b]));}
-   if (g_f37) ReportLine(mj::Value::Obj().set("known", StrArr(Strs(1, kF37))).set("times", mj::Value::Int((int64_t) g_f37)));
-   ReportLine(mj::Value::Obj().set("summary", mj::Value::Bool(true)).set("f37", mj::Value::Int((int64_t) g_f37)).set("behaviours", mj::Value::Int((int64_t) nBeh)).set("followed", mj::Value::Int((int64_t) nFollowed)).set("steps", mj::Value::Int((int64_t) nSteps))
+   ReportLine(mj::Value::Obj().set("summary", mj::Value::Bool(true)).set("behaviours", mj::Value::Int((int64_t) nBeh)).set("followed", mj::Value::Int((int64_t) nFollowed)).set("steps", mj::Value::Int((int64_t) nSteps))
               .set("status_differs", mj::Value::Int((int64_t) nOkDiff)).set("bytes_compared", mj::Value::Int((int64_t) nBytes)).set("distinct_encodings", mj::Value::Int((int64_t) distinct.size())).set("item_count_transitions", tr));
    return 0;
 }
@@ -514,8 +498,7 @@ static int Gen(int argc, char ** argv)
    fclose(tr);
    mj::Value t = mj::Value::Obj(); char key[16];
    for (int a=0; a<5; a++) for (int b=0; b<5; b++) if (trans[a][b]) {snprintf(key, sizeof(key), "%d>%d", a, b); t.set(key, mj::Value::Int((int64_t) trans[a][b]));}
-   if (g_f37) ReportLine(mj::Value::Obj().set("known", StrArr(Strs(1, kF37))).set("times", mj::Value::Int((int64_t) g_f37)));
-   ReportLine(mj::Value::Obj().set("summary", mj::Value::Bool(true)).set("f37", mj::Value::Int((int64_t) g_f37)).set("messages", mj::Value::Int(nMsgs)).set("steps", mj::Value::Int((int64_t) steps)).set("calls_ok", mj::Value::Int((int64_t) okCalls))
+   ReportLine(mj::Value::Obj().set("summary", mj::Value::Bool(true)).set("messages", mj::Value::Int(nMsgs)).set("steps", mj::Value::Int((int64_t) steps)).set("calls_ok", mj::Value::Int((int64_t) okCalls))
               .set("bytes", mj::Value::Int((int64_t) bytes)).set("max_message_bytes", mj::Value::Int((int64_t) maxBytes)).set("max_items_in_a_field", mj::Value::Int((int64_t) maxItems))
               .set("distinct_encodings", mj::Value::Int((int64_t) distinct.size())).set("item_count_transitions", t));
    return 0;
@@ -553,7 +536,7 @@ struct Child
       asks++;
       if (to == NULL) {if (Start() == false) {reply = "X cannot start"; return false;}}
       fputs(req.c_str(), to); fputc('\n', to); fflush(to);
-      if (mj::ReadLine(from, reply)) return true;
+      while (mj::ReadLine(from, reply)) if ((reply.size() >= 1)&&((reply[0] == 'K')||(reply[0] == 'E'))&&((reply.size() == 1)||(reply[1] == ' '))) return true;   // anything else is not a reply
       int st = 0; if (pid > 0) (void) waitpid(pid, &st, 0); pid = -1;
       fclose(to); fclose(from); to = from = NULL; restarts++;
       char tmp[96]; snprintf(tmp, sizeof(tmp), "X helper died (wait status 0x%x)", st); reply = tmp;
@@ -686,7 +669,7 @@ static void DoVector(Impls & I, const mj::Value & content, const std::string * s
 }
 
 // a batch of Messages through the three gateways; logs a Frames line for TLC
-static void DoFrames(Impls & I, const std::vector<MessageRef> & msgs, const Strs & bytes, FILE * tr, Strs & viol, uint64_t & nFrames)
+static void DoFrames(Impls & I, const std::vector<MessageRef> & msgs, const Strs & bytes, const Strs & texts, FILE * tr, Strs & viol, uint64_t & nFrames)
 {
    std::string stream;
    strcpy(g_ctx + strlen(g_ctx), " [frames]");
@@ -701,7 +684,7 @@ static void DoFrames(Impls & I, const std::vector<MessageRef> & msgs, const Strs
       Child & c = *cs[k];
       char seed[32]; snprintf(seed, sizeof(seed), "%u", (*g_sliceRng).raw() % 100000u);
       // the C gateway writes the same Messages: same stream?
-      req = std::string("G ") + seed; for (size_t i=0; i<bytes.size(); i++) {req += ' '; req += Hex(bytes[i]);}
+      req = std::string("G ") + seed; for (size_t i=0; i<texts.size(); i++) {req += ' '; req += texts[i];}
       bool alive = c.Ask(req, reply); I.comparisons++;
       const bool sameG = (alive)&&(reply == "K " + Hex(stream));
       o.set(c.name + "_g", mj::Value::Int(sameG ? 1 : 0));
@@ -733,10 +716,13 @@ static int X08Vec(int argc, char ** argv)
    FILE * tr = fopen(argv[3], "w"); if (tr == NULL) return 2;
    OpenReport(argv[4]);
    Impls I; I.Setup(argv+5);
+   const std::string tol = (argc > 9) ? argv[9] : "";                 // ids of the open known findings to tolerate, e.g. "F38,F39"
+   const bool tol38 = (tol.find("F38") != std::string::npos), tol39 = (tol.find("F39") != std::string::npos);
+   uint64_t known38 = 0, known39 = 0;
    Rng slice(12345); g_sliceRng = &slice;
    uint64_t nVec = 0, nFrames = 0, asked[6] = {0,0,0,0,0,0}, skipped[6] = {0,0,0,0,0,0};
    std::set<std::string> distinct;
-   std::vector<MessageRef> batch; Strs batchBytes;
+   std::vector<MessageRef> batch; Strs batchBytes, batchTexts;
    std::string line;
    while ((mj::ReadLine(in, line))&&(g_violCases < MAX_VIOL_CASES))
    {
@@ -744,20 +730,26 @@ static int X08Vec(int argc, char ** argv)
       nVec++;
       snprintf(g_ctx, sizeof(g_ctx), "x08vec vector %lld", (long long) v["id"].i());
       alarm(60);
-      const int py = v["py"].truthy() ? 1 : 0, pyn = v["pyn"].truthy() ? 1 : 0;
-      const int allow[6] = {1, 1, 1, 1, py, pyn};
+      // where an OPEN known finding applies (says the specification: f38 / f39) the one leg it concerns is asked but not judged
+      const bool t38 = (tol38)&&(v["f38"].truthy()), t39 = (tol39)&&(v["f39"].truthy());
+      const int py = v["py"].truthy() ? (t39 ? -1 : 1) : 0, pyn = v["pyn"].truthy() ? (t39 ? -1 : 1) : 0;
+      const int allow[6] = {1, 1, t38 ? -1 : 1, 1, py, pyn};
       for (int k=0; k<6; k++) {if (allow[k]) asked[k]++; else skipped[k]++;}
       const std::string specB = BytesOf(v["b"]);
       VecResult res; DoVector(I, v["m"], &specB, v["z"].i(), allow, res);
       distinct.insert(res.cppBytes);
-      if (res.viol.empty()) {batch.push_back(res.msg); batchBytes.push_back(res.cppBytes);}
-      if ((batch.size() >= 4)&&(res.viol.empty())) {DoFrames(I, batch, batchBytes, tr, res.viol, nFrames); batch.clear(); batchBytes.clear();}
+      if ((t38)&&(res.o[2] == 0)) known38++;
+      if ((t39)&&((res.o[4] == 0)||(res.o[5] == 0))) known39++;
+      if (res.viol.empty()) {batch.push_back(res.msg); batchBytes.push_back(res.cppBytes); std::string t; ContentText(v["m"], t); batchTexts.push_back(t);}
+      if ((batch.size() >= 4)&&(res.viol.empty())) {DoFrames(I, batch, batchBytes, batchTexts, tr, res.viol, nFrames); batch.clear(); batchBytes.clear(); batchTexts.clear();}
       alarm(0);
       if (res.viol.size() > 0) {g_violCases++; ReportLine(mj::Value::Obj().set("vector", v["id"]).set("violations", StrArr(res.viol)).set("m", v["m"]).set("cpp", mj::Value::Str(Hex(res.cppBytes))).set("spec", mj::Value::Str(Hex(specB))));}
    }
-   if ((batch.size() > 0)&&(g_violCases < MAX_VIOL_CASES)) {Strs viol; alarm(60); DoFrames(I, batch, batchBytes, tr, viol, nFrames); alarm(0); if (viol.size() > 0) {g_violCases++; ReportLine(mj::Value::Obj().set("vector", mj::Value::Str("last batch")).set("violations", StrArr(viol)));}}
+   if ((batch.size() > 0)&&(g_violCases < MAX_VIOL_CASES)) {Strs viol; alarm(60); DoFrames(I, batch, batchBytes, batchTexts, tr, viol, nFrames); alarm(0); if (viol.size() > 0) {g_violCases++; ReportLine(mj::Value::Obj().set("vector", mj::Value::Str("last batch")).set("violations", StrArr(viol)));}}
    I.Stop(); fclose(tr);
    mj::Value a = mj::Value::Arr(), s = mj::Value::Arr(); for (int k=0; k<6; k++) {a.push(mj::Value::Int((int64_t) asked[k])); s.push(mj::Value::Int((int64_t) skipped[k]));}
+   if (known38) ReportLine(mj::Value::Obj().set("known", mj::Value::Str("F38")).set("times", mj::Value::Int((int64_t) known38)).set("text", mj::Value::Str("the micro reader cannot read a zero-length raw item that is the last item of its field (UMFindData returns CB_ERROR)")));
+   if (known39) ReportLine(mj::Value::Obj().set("known", mj::Value::Str("F39")).set("times", mj::Value::Int((int64_t) known39)).set("text", mj::Value::Str("message.py writes a wrong length for a sub-Message that has a non-ASCII field name (FlattenedSize() counts characters, Flatten() writes UTF-8 bytes)")));
    ReportLine(mj::Value::Obj().set("summary", mj::Value::Bool(true)).set("vectors", mj::Value::Int((int64_t) nVec)).set("frame_batches", mj::Value::Int((int64_t) nFrames)).set("comparisons", mj::Value::Int((int64_t) I.comparisons))
               .set("asked", a).set("outside_repertoire", s).set("distinct_encodings", mj::Value::Int((int64_t) distinct.size()))
               .set("helper_restarts", mj::Value::Int(I.mini.restarts + I.micro.restarts + I.py.restarts)));
@@ -765,7 +757,7 @@ static int X08Vec(int argc, char ** argv)
 }
 
 // ------------------------------------------------------------------------------------------------ x08gen (C08 code -> spec)
-static mj::Value RandContent(Rng & R, int depth, bool utf8, bool noSNaN)
+static mj::Value RandContent(Rng & R, int depth, bool utf8, bool noSNaN, bool asciiSub = false)
 {
    mj::Value c = mj::Value::Obj(); c.set("what", ArrOf(R(4) ? LE32(R.raw()) : LE32(R(2) ? 0 : 0xFFFFFFFFu)));
    mj::Value fs = mj::Value::Arr();
@@ -775,13 +767,14 @@ static mj::Value RandContent(Rng & R, int depth, bool utf8, bool noSNaN)
    {
       mj::Value n = RandName(R, utf8);
       if (R(3) == 0) {std::string s = RandString(R, utf8, 12); n = ArrOf(s);}
+      if ((asciiSub)&&(depth > 0)) {std::string s = BytesOf(n); for (size_t q=0; q<s.size(); q++) if (((unsigned char) s[q]) >= 128) s[q] = (char)('a' + (((unsigned char) s[q]) % 26)); n = ArrOf(s);}   // open finding F39: pure ASCII names inside sub-Messages
       const std::string key = BytesOf(n);
       if (used.count(key)) continue;
       used.insert(key);
       uint32 tc = RandType(R, depth+1, false);        // nesting <= 3 below the top
       const uint32 cnt = (tc == B_MESSAGE_TYPE) ? 1+R(3) : (R(8) ? 1+R(3) : 1+R(40));
       mj::Value its = mj::Value::Arr();
-      for (uint32 j=0; j<cnt; j++) its.push((tc == B_MESSAGE_TYPE) ? RandContent(R, depth+1, utf8, noSNaN) : RandItem(R, tc, utf8, noSNaN));
+      for (uint32 j=0; j<cnt; j++) its.push((tc == B_MESSAGE_TYPE) ? RandContent(R, depth+1, utf8, noSNaN, asciiSub) : RandItem(R, tc, utf8, noSNaN));
       fs.push(mj::Value::Obj().set("name", n).set("type", ArrOf(LE32(tc))).set("items", its));
    }
    c.set("fields", fs);
@@ -798,7 +791,7 @@ static int X08Gen(int argc, char ** argv)
    Rng slice(seed ^ 0x5bd1e995u); g_sliceRng = &slice;
    uint64_t nFrames = 0, bytes = 0, agree[6] = {0,0,0,0,0,0}, differ[6] = {0,0,0,0,0,0};
    std::set<std::string> distinct;
-   std::vector<MessageRef> batch; Strs batchBytes;
+   std::vector<MessageRef> batch; Strs batchBytes, batchTexts;
    static const char * keys[6] = {"mini_u", "mini_b", "micro_u", "micro_b", "py_u", "py_b"};
    for (uint32 i=0; (i<nVecs)&&(g_violCases < MAX_VIOL_CASES); i++)
    {
@@ -816,8 +809,8 @@ static int X08Gen(int argc, char ** argv)
       {
          std::string ln = mj::ToString(mj::Value::Obj().set("op", mj::Value::Str("Vec")).set("id", mj::Value::Int(i)).set("m", content).set("b", ArrOf(res.cppBytes)).set("z", mj::Value::Int((int64_t) res.msg()->FlattenedSize())).set("o", o).set("notes", StrArr(res.notes)));
          ln += '\n'; fputs(ln.c_str(), tr);
-         batch.push_back(res.msg); batchBytes.push_back(res.cppBytes);
-         if (batch.size() >= 3) {DoFrames(I, batch, batchBytes, tr, res.viol, nFrames); batch.clear(); batchBytes.clear();}
+         batch.push_back(res.msg); batchBytes.push_back(res.cppBytes); {std::string t; ContentText(content, t); batchTexts.push_back(t);}
+         if (batch.size() >= 3) {DoFrames(I, batch, batchBytes, batchTexts, tr, res.viol, nFrames); batch.clear(); batchBytes.clear(); batchTexts.clear();}
       }
       alarm(0);
       if (res.viol.size() > 0) {g_violCases++; ReportLine(mj::Value::Obj().set("vector", mj::Value::Int(i)).set("seed", mj::Value::Int(seed)).set("violations", StrArr(res.viol)).set("m", content).set("cpp", mj::Value::Str(Hex(res.cppBytes))));}
@@ -838,6 +831,7 @@ static int PyEcho(int argc, char ** argv)
    FILE * tr = fopen(argv[5], "w"); if (tr == NULL) return 2;
    OpenReport(argv[6]);
    Rng R(seed * 3000017u + 7); g_sliceRng = &R;
+   const bool asciiSub = (argc > 7)&&(strstr(argv[7], "F39") != NULL);   // while F39 is open a wrong sub-Message length would derail the whole stream
    snprintf(g_ctx, sizeof(g_ctx), "pyecho port %u seed %u", (unsigned) port, seed);
    ConstSocketRef s = Connect(IPAddressAndPort(Inet_AtoN("127.0.0.1"), port), NULL, NULL, true, SecondsToMicros(10));
    if (s() == NULL) {ReportLine(mj::Value::Obj().set("summary", mj::Value::Bool(true)).set("skipped", mj::Value::Str("cannot connect to the Python transceiver on 127.0.0.1"))); return 0;}
@@ -846,7 +840,7 @@ static int PyEcho(int argc, char ** argv)
    Strs sent, got; std::vector<mj::Value> contents; uint64_t bytes = 0;
    for (uint32 i=0; i<N; i++)
    {
-      const mj::Value c = RandContent(R, 0, true, true);     // the repertoire of message.py; TLC checks Common("python", m) on the logged contents
+      const mj::Value c = RandContent(R, 0, true, true, asciiSub);     // the repertoire of message.py; TLC checks Common("python", m) on the logged contents
       MessageRef m = BuildScript(c); if (m() == NULL) return 2;
       contents.push_back(c); sent.push_back(FlatPlain(*m())); bytes += sent.back().size();
       if (gw.AddOutgoingMessage(m).IsError()) return 2;
